@@ -30,7 +30,7 @@ Definition decode1 (s : list Z) : Z * nat :=
   match s with
   | [] => (RuneError, 0%nat)
   | b0 :: r =>
-    if b0 <? 128 then (b0, 1%nat)
+    if (0 <=? b0) && (b0 <? 128) then (b0, 1%nat)
     else if (194 <=? b0) && (b0 <=? 223) then
       match r with
       | b1 :: _ => if cont b1 then ((b0 - 192) * 64 + (b1 - 128), 2%nat) else (RuneError, 1%nat)
